@@ -44,4 +44,81 @@ CLAIMS['C17'] = {
           'merge_overlapping_ranges (termination, disjoint, same bases), trim_rangelist proved separately; concat (bp_chunked l k) = l. 272k cases quick (exhaustive small scopes), 7M thorough.',
   'note': 'Hand transcription tied to the code by correspondence only (no translator). int(a/b) modelled as Z.quot (exact below 2^53); sorted() as insertion sort. '
           'blacklisted_binning_contigs and BED/BED.gz reading are exercised through real files but not modelled in Coq.'}
+CLAIMS['C01'] = {
+  'technique': 'Coq proof (induction over the pair/strategy lists) about an executable model of the loader, reader and writers, parametric in the strategies; end-to-end correspondence check on real gzip FASTQ files',
+  'text': 'For every strategy function and every input, in every run that returns: the writes caused by pair p under strategy j are exactly one step\'s writes; accepted pairs go to the '
+          'demultiplexed output only, rejected or raised pairs to the rejects output only with ;RR:reason and the original bases and qualities (exactly once per mate file with a rejects handle); '
+          'R1/R2 of every sink and cell carry the same (pair, strategy) sequence in input order; processed = min(n, max(1, maxReadPairs)); strategyYields[j] = accepted pairs = R1 records written; '
+          'the reader stops at the first exhausted index. Model predicts the bytes of every output file and the counters for 274 (quick) / 9k (thorough) real libraries x 28 strategies.',
+  'note': 'Modelled not verified: gzip, text decoding, file system, HandleLimiter (C19). Strategies and the reject-header builder are parameters (what a strategy extracts is C02, barcode correction C03, '
+          'header codec C04); their outcome class per pair is measured by calling the real code. A reject record that cannot be formatted (over-long library name) aborts the run loudly: outside the '
+          'precondition, recorded by C01_reject_crash_refuted. search() uses a Python transcription of Props/C01.v. No translator tie (K only).'}
+CLAIMS['C02'] = {
+  'technique': 'Coq proof (Python-slice lemmas, induction over read tuples, vm_compute over the strategy table regenerated by reflection) + correspondence check against the real strategies',
+  'text': 'For every contiguous, scattered or restriction-bisulfite layout of plain shape, every whitelist lookup and every read tuple of any length, an accepted input yields exactly the records whose '
+          'bc/RX/RQ/rS/lh/lq are the bases or encoded qualities at the layout positions of the stated mate; emitted sequence and qualities are the same suffix from the insert start, index aligned; '
+          'every position is in a tag region or emitted; nothing comes from the other mate; one record per mate. The table regenerated from the 28 registered strategy objects is proved well formed and '
+          'equal to a pinned protocol table for the 22 single-protocol strategies (C02_registered_wf); all 28 are compared with model or statement on ~9k (quick) / 245k (thorough) read tuples.',
+  'note': 'Whitelist lookup (C03) and header parsing (C04) are parameters. Layouts come from reflection plus a trace call; the pinned protocol table is hand-written. The 5 composite strategies and ILLU '
+          'have NO Coq model: covered by K against a Python transcription of the statement only (not claimed as proved). Index-alignment clause assumes equal sequence and quality length.'}
+CLAIMS['C04'] = {
+  'technique': 'Coq proof (split/join inverse by induction over list Z strings, finite-domain phred tables) + constants/tables regenerated from source by AST and reflection + correspondence through demultiplex -> asFastq -> pysam -> QueryNameFlagger',
+  'text': 'For every well-formed tag store decode(asFastq header) restores every written tag; the tagger derives SM=LY_bi, MI=BC+RX+aA, the name Is:RN:Fc:La:Ti:CX:CY and RG; phred tags return as the '
+          'original characters saturated at T; the quality encoding is total for every character code; headers over 254 characters are refused, never truncated (254 = BAM query-name capacity).',
+  'note': 'Hand-transcribed control flow of _parse_illumina_header / fromTaggedBamRecord / tagPysamRead / digest tied by K only; constants and tables (clamp, limit, separators, name format, MI recipe, '
+          'tag table, fqSafe class) regenerated fail-closed. Python str semantics, the aligner copying the name and pysam set_tag typing are trusted. Assumes values free of ; : and whitespace; '
+          '+ in dual indices is deleted on decode (D7, outside the stated alphabet).'}
+CLAIMS['C05'] = {
+  'technique': 'Coq proof (induction with the code\'s accumulators for the job list, dictionary invariant for the mate-pair cache, Permutation reasoning through sort/merge contracts) + source-slice execution of the job block + end-to-end synthetic BAMs',
+  'text': 'For every contig list the contig-per-process job list is * followed by each contig exactly once; the mate-pair cache emits every primary record in exactly one pair; for any permuting '
+          'sort/merge and any molecule iterator meeting the emit-once contract the written records are a permutation of the primary input records with unchanged id, name, contig, position and mate bits, '
+          'single-process and for every completion order of the jobs; --no_rejects writes exactly the valid fragments; every RG is declared in the header; no exception with SAM-conformant flags.',
+  'note': 'PARTIAL: htslib (idxstats, fetch, sort, merge, index) and the process pool are functions constrained by permutation contracts, sampled end-to-end (474 tagger runs quick). The molecule '
+          'iterator is a contract discharged for a simple iterator (the real ejection machine is C07, assignment C06). pysamiterators modelled from the installed copy. Assumes no (name, mate) '
+          'collision among primary records and default options; --cluster, -contig/-skip_contig with --multiprocess not modelled.'}
+CLAIMS['C07'] = {
+  'technique': 'Coq proof (induction over the fragment list: permutation accounting, simulation of the ejecting run by the never-ejecting run, span invariant + lia) about a state machine whose pop index, ejection test, can_be_yielded and Fragment.__eq__ are regenerated from source; correspondence on every schedule',
+  'text': 'For every check_eject_every (None or any integer), both pooling methods, every cache size, radius, UMI distance and fragment list: every valid fragment is yielded in exactly one molecule '
+          'and list.pop never raises (the pop loop is exactly partition). If starts step back at most lag within a contig, contigs form contiguous blocks, lengths <= L and 2(L+lag+radius) <= cache_size, '
+          'no molecule is yielded while a later fragment still matches it and the yielded molecules are the same multiset as with check_eject_every=None. ~18k runs quick / ~197k thorough.',
+  'note': 'Modelled not verified (K only): control flow of __iter__ around the translated expressions, Molecule._add_fragment aggregate, dict order / Counter.most_common, pysam + Fragment.__init__. '
+          'Scope: Molecule + Fragment (or subclass setting match_hash only), no cap / allele clustering. The proved inequality is L <= cache_size/2; fragments between cache_size/2 and cache_size '
+          'change the partition (C07_gap_refuted; known finding, since cache_size is documented as the cache radius).'}
+CLAIMS['C08'] = {
+  'technique': 'Coq proof (induction over task lists and fragment streams, Permutation, lia) about the region gate regenerated from run_tagging_task by a fail-closed translator + correspondence against the real serial, region-tiled and --multiprocess taggers',
+  'text': 'For every tiling whose bins are consecutive and cover each contig, with fetch margins >= L or clipped at contig ends, and every library whose fragments extend at most L: each hash group '
+          'is written by exactly one task and the jobs write a permutation of the records the serial pass writes for the covered molecules, for every assignment function, grouping into jobs and '
+          'completion order; bp_chunked preserves the task list.',
+  'note': 'PARTIAL: pysam fetch/merge/sort and Pool completion orders are modelled as permutations and sampled with 1-4 threads. MoleculeIterator modelled as a per-match_hash function of arrival order '
+          '(holds for NLA, CHIC radius 0). Site-less molecules in region mode are excluded (known finding D11). Contig-per-process job list is C05, blacklist tiling is C17.'}
+CLAIMS['C11'] = {
+  'technique': 'Coq proof (order-free filter conjunction = short-circuit code order; exact rational weights in QArith; fold = group-by sum by induction with a map-fold lemma) + correspondence through create_count_table',
+  'text': 'For every option record and read list: a read is counted iff it satisfies the declaratively stated conjunction of the selected filters; no option combination raises on well-formed reads; '
+          'every increment is keyed by the read\'s own sample and feature values; two mapped mates contribute 1 in total (2 without fragment division, 1 for a selected mate); multimapping divides by the '
+          'XA/NH hit count; by-value adds the tag\'s numeric value; every table cell equals the group-by sum, for plain, -contig and -bedfile runs. 1.6k (quick) / 36k (thorough, all 2^13 option '
+          'combinations) create_count_table calls compared as exact Fractions.',
+  'note': 'Modelled not verified: pysam/htslib (attributes, 2-character tag lookup, fetch overlap), Counter, pandas. float() modelled for plain decimals only; float-typed tags, -bin (C10), -head, --bulk '
+          'outside the model. No-raise/table theorems assume wf_read and wf_opts. No translator tie (K only).'}
+CLAIMS['C12'] = {
+  'technique': 'Coq proof (tiling arithmetic by lia/nia, update-merge = sum for every permutation of job completion, declarative count by induction) about arithmetic and filter regenerated from source + correspondence through obtain_counts',
+  'text': 'For every bin size, bins-per-job >= 1, max fragment size and every permutation of job completion order each cell of the matrix merged by obtain_counts equals the declarative count of passing '
+          'read-1 records per (key tags, contig, bin floor(site/b), sample); hence identical for all bins-per-job and schedules, total = number of passing records; jobs tile each contig on bin '
+          'boundaries, produced bin ids are owned by one job so the overwriting update-merge is a sum.',
+  'note': 'Hypotheses visible: 0 <= site < contig length and site within max_fragment_size of the aligned span (dropping either is refuted in Coq and reproduced on the code; treated as domain '
+          'assumptions). Modelled not verified: pysam fetch overlap, Pool.imap_unordered yields each result once, the loop/dict accumulation around the generated expressions (K). One BAM, '
+          'alt_spans=None. get_binned_counts with user regions double counts at region edges (known finding D15).'}
+CLAIMS['C16'] = {
+  'technique': 'Coq proof (sorted-array window lemmas, state-machine refinement by induction over the operation list with a cache-validity invariant) + correspondence against the real FeatureContainer / pysam reads',
+  'text': 'For every feature list (nested, identical, zero-length) the point-lookup variants and the range lookup return exactly the overlapping features; for every history of '
+          'addFeature/sort/findFeaturesAt/findFeaturesBetween/findFeaturesAtPysamAlign (any order, lru_cache and its eviction included) every answer equals the brute-force answer on everything added '
+          'so far; per-base and per-block read annotation report exactly the features overlapping an aligned base. The pre-fix code is refuted on concrete histories.',
+  'note': 'Modelled not verified: np.searchsorted/np.max, list.sort on tuples, set(), lru_cache (LRU list keyed on logical arguments), pysam get_blocks/get_aligned_pairs. Assumes start <= end, '
+          'orderable feature tuples. Not covered: findNearest*, annotateUTRs, GTF/BED loaders. No translator tie (K only).'}
+CLAIMS['C19'] = {
+  'technique': 'Coq proof (invariant over the fold of writes for every OS-open oracle) about an executable state-machine model + fault-injecting correspondence check (full open/close traces, files read back)',
+  'text': 'For every write sequence, every maxHandles/pruneEvery and every sequence of open() failures in which an open succeeds when no other handle is open, HandleLimiter (hence FastqHandle '
+          'single_cell) raises nothing, closes every descriptor, and each file holds exactly its writes in order; under any fault sequence it raises only the OSError of an open that failed with nothing '
+          'else open, and the files then hold exactly the completed writes; bamSplitByTag gives each tag value exactly its reads for every max_handles >= 1.',
+  'note': 'PARTIAL: the file system and OS are modelled (path -> content after close; failed open has no effect); buffering, gzip framing, write/close failures and real descriptor limits are outside '
+          'the model (gzip validity and RLIMIT_NOFILE exhaustion only sampled in K). No translator tie (K only, with full-trace comparison).'}
 NOT_APPLICABLE = {}
